@@ -79,6 +79,8 @@ def isPos (d : Dec) : Bool := !d.neg && d.coeff != 0
 /-- `decQuadIsNegative`: less than zero (false for `-0`). -/
 def isNeg (d : Dec) : Bool := d.neg && d.coeff != 0
 
+-- `isIntegral`, `integralForm`, `toUsizeV?`, `toIsizeV?`: see `Dmn/Model/Num.lean`
+
 /-- number of decimal digits (1 for 0) -/
 def digits (n : Nat) : Nat := (Nat.toDigits 10 n).length
 
@@ -203,7 +205,7 @@ def strResult (o : Outcome (Option (List Char))) : Outcome Value :=
 
 /-- `length` of `substring`: null below 1, otherwise the integer part as `usize` (`core.rs:1093-1100`) -/
 def substringCount (len : Dec) : Option Nat :=
-  if Dec.lt len Dec.one then none else (Dec.trunc len).toUsize?
+  if Dec.lt len Dec.one then none else (Dec.trunc len).toUsizeV?
 
 /-- `core::substring` (`core.rs:1082`) -/
 def core_substring (m : IntMode) (input start length : Value) : Outcome Value :=
@@ -211,7 +213,7 @@ def core_substring (m : IntMode) (input start length : Value) : Outcome Value :=
   | .str s =>
     match start with
     | .num sp =>
-      match sp.toIsize? with
+      match sp.toIsizeV? with
       | none => .ok .null
       | some st =>
         match length with
@@ -521,8 +523,8 @@ def core_reverse (list : Value) : Outcome Value :=
 `abs().to_usize()`); a positive position that fails its range test falls through to the
 negative branch, which does nothing for it.  `(true, i)` = the position `-i`. -/
 def decodePos (p : Dec) : Option (Bool × Nat) :=
-  if p.isPos then (p.toUsize?).map (fun i => (false, i))
-  else if p.isNeg then ((Dec.abs p).toUsize?).map (fun i => (true, i))
+  if p.isPos then (p.toUsizeV?).map (fun i => (false, i))
+  else if p.isNeg then ((Dec.abs p).toUsizeV?).map (fun i => (true, i))
   else none
 
 def listResult (o : Outcome (Option (List Value))) : Outcome Value :=
@@ -685,7 +687,7 @@ def core_sublist3 (m : IntMode) (list position length : Value) : Outcome Value :
   | .list items =>
     match length with
     | .num ln =>
-      match ln.toUsize? with
+      match ln.toUsizeV? with
       | some len =>
         match position with
         | .num p =>
@@ -976,25 +978,19 @@ def displayEntries : List (String × Value) → Option (List (List Char))
     | _, _ => none
 end
 
-/-- `ToFeelString for FeelContext` (`context.rs:96`): values are written with `Display` -/
-def feelStringCtx (es : List (String × Value)) : Option (List Char) :=
-  let key (k : String) : List Char :=
-    if k == "{" || k == "}" || k == ":" || k == "," then quote false k.toList
-    else if k == "\"" then "\"\\\"\"".toList
-    else k.toList
-  let rec go : List (String × Value) → Option (List (List Char))
-    | [] => some []
-    | (k, v) :: es =>
-      match displayValue v, go es with
-      | some x, some xs => some ((key k ++ [':', ' '] ++ x) :: xs)
-      | _, _ => none
-  (go es).map (fun xs => '{' :: joinSep [',', ' '] xs ++ ['}'])
+/-- how `ToFeelString for FeelContext` (`context.rs:96`) writes a key -/
+def feelKey (k : String) : List Char :=
+  if k == "{" || k == "}" || k == ":" || k == "," then quote false k.toList
+  else if k == "\"" then "\"\\\"\"".toList
+  else k.toList
 
 mutual
-/-- `ToFeelString for Value` (`values.rs:262`) -/
+/-- `ToFeelString for Value` (`values.rs:262`): a null is `null` whatever its trace message;
+the entries of a context are written with `to_feel_string` like the items of a list -/
 def feelString : Value → Option (List Char)
-  | .ctx es => feelStringCtx es
+  | .ctx es => (feelStringEntries es).map (fun xs => '{' :: joinSep [',', ' '] xs ++ ['}'])
   | .list vs => (feelStringItems vs).map (fun xs => '[' :: joinSep [',', ' '] xs ++ [']'])
+  | .null => some "null".toList
   | .str s => some (quote true s.toList)
   | v => displayValue v
 def feelStringItems : List Value → Option (List (List Char))
@@ -1002,6 +998,12 @@ def feelStringItems : List Value → Option (List (List Char))
   | v :: vs =>
     match feelString v, feelStringItems vs with
     | some x, some xs => some (x :: xs)
+    | _, _ => none
+def feelStringEntries : List (String × Value) → Option (List (List Char))
+  | [] => some []
+  | (k, v) :: es =>
+    match feelString v, feelStringEntries es with
+    | some x, some xs => some ((feelKey k ++ [':', ' '] ++ x) :: xs)
     | _, _ => none
 end
 
